@@ -139,6 +139,22 @@ fn run_book_case(evs: &[Ev], depth: usize) -> (String, Vec<String>) {
             coq_levels(snap.asks().levels()),
         ));
         assert_eq!(snap.sequence, book.sequence);
+        // persist / restore step (lesson L14): on the unchanged code a serde_json round trip of the
+        // book is the identity; the model treats it as a no-op. A restored book that differs is a
+        // panic here (reported as CBookPanic, which the oracle rejects); the run continues on the
+        // restored book so a lossy (de)serialisation also shows in every later observation.
+        if (e.seq as usize + obs.len()) % 3 == 0 {
+            let js = serde_json::to_string(&book).expect("OrderBook serialises");
+            // (on this tree `OrderBookSide.side` is `skip_serializing` without a default, so the
+            // serialised book does not deserialise: the step is then skipped, not an outcome)
+            if let Ok(restored) = serde_json::from_str::<OrderBook>(&js) {
+                assert_eq!(restored, book, "serde round trip changed the book");
+                book = restored;
+                tags.push("persist_restore".to_string());
+            } else {
+                tags.push("persist_not_restorable".to_string());
+            }
+        }
     }
     let coq = format!(
         "(CBook {} {} {})",
